@@ -52,6 +52,11 @@ Proof.
   - rewrite nth_overflow by lia; unfold byte; lia.
 Qed.
 
+Lemma nth_firstn' {A} (l : list A) n i d : (i < n)%nat -> nth i (firstn n l) d = nth i l d.
+Proof. revert l i; induction n; intros [|x l] [|i] H; cbn; try lia; auto. apply IHn; lia. Qed.
+Lemma nth_skipn' {A} (l : list A) n i d : nth i (skipn n l) d = nth (n + i) l d.
+Proof. revert l; induction n; intros [|x l]; cbn; auto. destruct i; reflexivity. Qed.
+
 Lemma rev_append_rev' {A} (l a : list A) : rev_append l a = rev l ++ a.
 Proof. apply rev_append_rev. Qed.
 
@@ -87,11 +92,11 @@ Lemma nth_upd_other b i j v : 0 <= i < len b -> 0 <= j -> j <> i -> nth (Z.to_na
 Proof.
   unfold upd, len; intros Hi Hj Hne.
   destruct (Z.lt_ge_cases j i).
-  - rewrite app_nth1 by (rewrite firstn_length; lia). apply nth_firstn_lt; lia.
+  - rewrite app_nth1 by (rewrite firstn_length; lia). apply nth_firstn'; lia.
   - rewrite app_nth2 by (rewrite firstn_length; lia). rewrite firstn_length.
     replace (Nat.min (Z.to_nat i) (length b)) with (Z.to_nat i) by lia.
     remember (Z.to_nat j - Z.to_nat i)%nat as d. destruct d as [|d]; [lia|]. cbn [nth].
-    rewrite nth_skipn. f_equal; lia.
+    rewrite nth_skipn'. f_equal; lia.
 Qed.
 
 Lemma firstn_upd_ge b i v n : 0 <= i < len b -> (n <= Z.to_nat i)%nat -> firstn n (upd b i v) = firstn n b.
@@ -143,10 +148,10 @@ Proof.
   revert a; induction p; intros a; cbn [loop_pos].
   - rewrite Pos2Nat.inj_xI. cbn [loop_nat]. destruct (body a) as [a1|r]; [|reflexivity].
     replace (2 * Pos.to_nat p)%nat with (Pos.to_nat p + Pos.to_nat p)%nat by lia.
-    rewrite loop_nat_add, <- !IHp. reflexivity.
+    rewrite loop_nat_add, IHp. destruct (loop_nat (Pos.to_nat p) body a1); [apply IHp|reflexivity].
   - rewrite Pos2Nat.inj_xO. replace (2 * Pos.to_nat p)%nat with (Pos.to_nat p + Pos.to_nat p)%nat by lia.
-    rewrite loop_nat_add, <- !IHp. reflexivity.
-  - cbn. destruct (body a); reflexivity.
+    rewrite loop_nat_add, IHp. destruct (loop_nat (Pos.to_nat p) body a); [apply IHp|reflexivity].
+  - change (Pos.to_nat 1) with 1%nat. cbn [loop_nat]. destruct (body a); reflexivity.
 Qed.
 
 (* invariant rule: I is preserved by continuing iterations, Q holds of every final result *)
@@ -161,12 +166,11 @@ Qed.
 (* termination rule: a measure that decreases with every continuing iteration *)
 Lemma loop_nat_measure (I : A -> Prop) (m : A -> Z) :
   (forall a, I a -> match body a with inl a' => I a' /\ 0 <= m a' < m a | inr r => True end) ->
-  forall n a, I a -> m a < Z.of_nat n -> exists r, loop_nat n body a = inr r.
+  forall n a, I a -> 0 <= m a < Z.of_nat n -> exists r, loop_nat n body a = inr r.
 Proof.
-  intros Hb; induction n; intros a Ha Hm; cbn [loop_nat].
-  - specialize (Hb a Ha). destruct (body a) as [a'|r]; lia.
-  - specialize (Hb a Ha). destruct (body a) as [a'|r]; [|eauto].
-    destruct Hb as [Ha' Hd]. apply IHn; [exact Ha'|lia].
+  intros Hb; induction n; intros a Ha Hm; cbn [loop_nat]; [lia|].
+  specialize (Hb a Ha). destruct (body a) as [a'|r]; [|eauto].
+  destruct Hb as [Ha' Hd]. apply IHn; [exact Ha'|lia].
 Qed.
 
 Lemma loop_nat_more n m a r : loop_nat n body a = inr r -> loop_nat (n + m) body a = inr r.
